@@ -921,6 +921,39 @@ func (x *fnCtx) evalSpecCall(env *specEnv, e *SExpr) *Val {
 	case "closed":
 		ch := ev(0)
 		return scalar(tBool, Select(hget(env.heap, "$chanclosed", ArrSort(SInt, SBool)), ch.L[0]))
+	case "bound":
+		// bound(name): the trace binding `name` fired on this path
+		if args[0].Kind != "ident" {
+			x.fail("spec: bound() needs a binding name")
+		}
+		if b, ok := env.st.ghost["$bound."+args[0].Op]; ok {
+			return b
+		}
+		return scalar(tBool, False)
+	case "visitedIn":
+		// visitedIn(N, k): key k already visited by the N-th map range loop of this function
+		n, _ := strconv.Atoi(args[0].Op)
+		k := x.evalSpec(env, args[1])
+		cnt := 0
+		for _, b := range x.fn.Blocks {
+			for _, in := range b.Instrs {
+				if rg, ok := in.(*ssa.Range); ok {
+					if _, isMap := rg.X.Type().Underlying().(*types.Map); !isMap {
+						continue
+					}
+					cnt++
+					if cnt == n {
+						name := fmt.Sprintf("$visited.%s.%s", x.short, rg.Name())
+						srt, ok := heapSorts[name]
+						if !ok {
+							x.fail("spec: visitedIn(%d, ...) before the loop was reached", n)
+						}
+						return scalar(tBool, Select(hget(env.heap, name, srt), mapKey(k)))
+					}
+				}
+			}
+		}
+		x.fail("spec: visitedIn(%d, ...): no such map range loop", n)
 	case "visited":
 		// visited(k): key k already visited by the (single) map range loop of this function
 		k := ev(0)
@@ -1011,6 +1044,33 @@ func (x *fnCtx) evalSpecCall(env *specEnv, e *SExpr) *Val {
 					rt = fn.Signature.Results().At(0).Type()
 				}
 				return x.pureResult(key, rt, as)
+			}
+		}
+	}
+	// a pure interface method (e.g. Name(info) for os.FileInfo.Name): the same uninterpreted
+	// function of the receiver that its call sites use
+	if len(args) >= 1 {
+		recv := ev(0)
+		if it, ok := recv.T.Underlying().(*types.Interface); ok {
+			for i := 0; i < it.NumMethods(); i++ {
+				m := it.Method(i)
+				if m.Name() != name {
+					continue
+				}
+				for key, con := range x.eng.db.Ifaces {
+					if con.Pure && strings.HasSuffix(key, "."+name) && (key == typeStrQ(recv.T)+"."+name || key == typeStrQ(m.Type().(*types.Signature).Recv().Type())+"."+name) {
+						sig := m.Type().(*types.Signature)
+						var rt types.Type = sig.Results()
+						if sig.Results().Len() == 1 {
+							rt = sig.Results().At(0).Type()
+						}
+						as := []*Val{recv}
+						for i := 1; i < len(args); i++ {
+							as = append(as, ev(i))
+						}
+						return x.pureResult(key, rt, as)
+					}
+				}
 			}
 		}
 	}
